@@ -195,6 +195,39 @@ def erasers(trees, cls, member):
     return sorted(out)
 
 
+LIST_OPS = ('append', 'prepend', 'insert', 'remove', 'ownsHandle', 'empty', 'forEach', 'forEachIf')
+
+
+def list_ops_under(trees, cls, mutex, mutexes):
+    """public member functions that call an operation of a callback list (append … forEachIf) INSIDE the scope of a guard on
+    `mutex`: the calls of the dispatcher that keep listenerMutex across the list's own critical section"""
+    out = set()
+    for nm, fn, body, public in class_functions(trees, cls):
+        if not public or nm in ('constructor', 'destructor', 'operator=', 'swap'):
+            continue
+
+        def rec(node, guarded):
+            k = node.get('kind')
+            if k == 'LambdaExpr':
+                for c in kids(node):
+                    rec(c, False)
+                return
+            if k == 'CompoundStmt':
+                g = guarded
+                for c in kids(node):
+                    if mutex in guard_of(c, mutexes):
+                        g = True
+                        continue
+                    rec(c, g)
+                return
+            if guarded and k in ('MemberExpr', 'CXXDependentScopeMemberExpr') and member_name(node) in LIST_OPS:
+                out.add(nm)
+            for c in kids(node):
+                rec(c, guarded)
+        rec(body, False)
+    return sorted(out)
+
+
 SITES = [
     # (definition name, header, class, member, mutex, all mutex names of the class)
     ('dispatcher_map_unguarded', 'eventpp/eventdispatcher.h', 'EventDispatcherBase', 'eventCallbackListMap', 'listenerMutex', ('listenerMutex',)),
@@ -228,6 +261,10 @@ def leaf_locks(out):
                               ('heter_dispatcher_map_erasers', 'eventpp/hetereventdispatcher.h', 'HeterEventDispatcherBase')):
         lst = erasers(cache[(header, cls)], cls, 'eventCallbackListMap')
         lines.append('(* %s: member functions (whole-object construction, assignment, swap, destruction aside) that take entries out of eventCallbackListMap *)' % cls)
+        lines.append('Definition %s : list string := [%s].' % (name, '; '.join('"%s"' % x for x in lst)))
+    for name, header, cls in (('dispatcher_list_ops_under_listener_mutex', 'eventpp/eventdispatcher.h', 'EventDispatcherBase'),):
+        lst = list_ops_under(cache[(header, cls)], cls, 'listenerMutex', ('listenerMutex',))
+        lines.append('(* %s: public member functions that call a callback-list operation inside a guard on listenerMutex *)' % cls)
         lines.append('Definition %s : list string := [%s].' % (name, '; '.join('"%s"' % x for x in lst)))
     out['GenLocks.v'] = '\n'.join(lines) + '\n'
 
